@@ -684,9 +684,11 @@ func ruleConstPush(c *Ctx, r *Report, rule string) {
 	}
 }
 
+var delegSides = map[string][]func(ast.Expr) string{}
+
 // ruleArithMap: operator opcodes map to the Go operators, operands in order.
 func ruleArithMap(c *Ctx, r *Report, rule string) {
-	r.rule(rule, 30, "in binopNumeric/binopString/unopNumeric every `case opX` returns (left ⊕ right) with ⊕ the Go operator of X and the operands in (a, b) order, ints promoted with float64(); the VM passes (second-from-top, top) as (a, b)")
+	r.rule(rule, 19, "in binopNumeric/binopString/unopNumeric every `case opX` returns (left ⊕ right) with ⊕ the Go operator of X and the operands in (a, b) order, ints promoted with float64(); the VM passes (second-from-top, top) as (a, b)")
 	want := map[string]token.Token{"opEQ": token.EQL, "opLT": token.LSS, "opGT": token.GTR, "opADD": token.ADD, "opSUB": token.SUB, "opMUL": token.MUL, "opDIV": token.QUO}
 	ops := constsOfType(c.Bcl, "opcode")
 	for _, fnName := range []string{"binopNumeric", "binopString", "unopNumeric"} {
@@ -750,6 +752,7 @@ func ruleArithMap(c *Ctx, r *Report, rule string) {
 				return true
 			})
 		}
+		delegSides[fnName] = []func(ast.Expr) string{sideOf, sideOf}
 		count := 0
 		ast.Inspect(fd.Body, func(n ast.Node) bool {
 			sw, ok := n.(*ast.SwitchStmt)
@@ -791,6 +794,28 @@ func ruleArithMap(c *Ctx, r *Report, rule string) {
 				}
 			}
 			return true
+		})
+	}
+	// a branch that delegates to the function itself (e.g. int op float -> float op float) must keep operator and operand order
+	for _, fnName := range []string{"binopNumeric", "binopString", "unopNumeric"} {
+		_, fd := c.find(fnName)
+		if fd == nil {
+			continue
+		}
+		n := 0
+		walkCalls(fd.Body, false, func(call *ast.CallExpr) {
+			if c.calleeName(call) != fnName {
+				return
+			}
+			n++
+			ok := len(call.Args) >= 2 && c.isObj(call.Args[0], c.paramObj(fd, 0))
+			sides := delegSides[fnName]
+			for i := 1; i < len(call.Args) && ok; i++ {
+				if i-1 >= len(sides) || sides[i-1](call.Args[i]) != []string{"a", "b"}[i-1] {
+					ok = false
+				}
+			}
+			r.check(ok, rule, fmt.Sprintf("%s/delegation#%d", fnName, n), "same operator, operands in (a, b) order", fnName+" delegates to itself with a changed operator or swapped operands", c.pos(call.Pos()))
 		})
 	}
 	// the VM's argument order
@@ -838,6 +863,8 @@ func checkC01(c *Ctx, r *Report) {
 	ruleArithMap(c, r, "arith-map")
 	ruleConstPush(c, r, "const-push")
 	ruleDivZero(c, r, "div-zero", true)
+	ruleStringOpaque(c, r, "string-literal-scan")
+	ruleTokenTables(c, r, "token-tables", spec)
 	ruleVMEffect(c, r, "vm-effect", true)
 	r.note("the value of any compound expression; the (operator x type x type) dispatch cells of the arithmetic arm beyond operand order (the suite pins them at depth one); string/number coercion cells")
 	r.assume("assumption A (no diagnostic raised) for the emission templates")
